@@ -1,5 +1,7 @@
 package imagemeta
 
+import "github.com/evanoberholster/imagemeta/exif2"
+
 const zzFtypCR3 = "\x00\x00\x00\x18ftypcrx \x00\x00\x00\x01crx isom"
 
 // zzIfd0HoleSmall: header, IFD0 = one entry of the k-th dispatched id with type in {ASCII, SHORT}, count <= 8 and an
@@ -19,3 +21,23 @@ func zzIfd0HoleSmall(k int) []byte {
 	t.ent(8, 0, ids[k], typ, cnt, off)
 	return t.b
 }
+
+// zzPayload: TIFF header + IFD0 {ImageWidth SHORT, Orientation SHORT, Software ASCII[6] out of line}, values symbolic.
+func zzPayload(be bool) []byte {
+	t := zzNewTiff(8+2+3*12+4+6, be, 8)
+	t.dir(8, 3, 0)
+	t.entShort(8, 0, 0x0100, zzU16("w"))
+	t.entShort(8, 1, 0x0112, zzU16("o"))
+	t.ent(8, 2, 0x0131, 2, 6, 50)
+	s := zzBytes("s", 5)
+	for _, c := range s {
+		zzAssume(c > ' ' && c < 0x7f)
+	}
+	t.bytes(50, append(append([]byte{}, s...), 0))
+	return t.b
+}
+
+func zzSameFields(a, b exif2.Exif) bool {
+	return a.ImageWidth == b.ImageWidth && a.Orientation == b.Orientation && a.Software == b.Software && a.Make == b.Make && a.ISOSpeed == b.ISOSpeed
+}
+
